@@ -21,10 +21,17 @@ def parse_pattern(src: str) -> ast.AST:
     return _cache[src]
 
 
+class Binds(dict):
+    """Result of a successful match: truthy even when no metavariable was bound."""
+
+    def __bool__(self) -> bool:
+        return True
+
+
 def match(node: ast.AST, pattern: str, binds: Optional[Dict[str, ast.AST]] = None) -> Optional[Dict[str, ast.AST]]:
     """Structural match of `node` against `pattern`; names like A_, IDX_ are metavariables
     (bind any expression, equal text on repetition), `___` matches anything."""
-    b = dict(binds or {})
+    b = Binds(binds or {})
     return b if _m(node, parse_pattern(pattern), b) else None
 
 
@@ -39,6 +46,12 @@ def _m(n, p, b) -> bool:
                 return same(b[p.id], n)
             b[p.id] = n
             return True
+    if isinstance(p, ast.arg) and isinstance(n, ast.arg) and _META.match(p.arg):
+        nm = ast.Name(id=n.arg, ctx=ast.Load())
+        if p.arg in b:
+            return same(b[p.arg], nm)
+        b[p.arg] = nm
+        return True
     if type(n) is not type(p):
         return False
     for f in p._fields:
@@ -64,7 +77,7 @@ def _m(n, p, b) -> bool:
 
 
 def same(a: ast.AST, b: ast.AST) -> bool:
-    return ast.dump(a) == ast.dump(b)
+    return ast.unparse(a) == ast.unparse(b)
 
 
 def text(n: ast.AST) -> str:
